@@ -49,6 +49,7 @@ type Prog struct {
 	Structs    []*types.Named      // repo struct types in dependency order
 	MapTypes   []*types.Map
 	structSeen map[string]bool
+	Renames    map[string]map[string]string // function key -> name recorded in names.lock -> current name
 }
 
 func pkgShort(p *types.Package) string {
@@ -311,34 +312,36 @@ type Obligation struct {
 
 // FuncGen: verification-condition generation for one function.
 type FuncGen struct {
-	P         *Prog
-	F         *FuncInfo
-	trace     []string
-	nfresh    int
-	obls      []*Obligation
-	occ       map[string]int
-	factSeen  map[string]bool
-	lits      map[string]string // string literal -> const name
-	litOrder  []string
-	heapKeys  map[string]string // heap key -> sort of the array
-	entry     *State
-	results   []*types.Var
-	resVals   []types.Object
-	returns   []*State
-	quiet     int // >0: spec evaluation, no safety obligations
-	loopOrd   int
-	notes     []string // assumptions / uncontracted callees etc.
-	unbound   string   // non-empty: function could not be lowered
-	info      *types.Info
-	extraDecl []string // uninterpreted functions declared on demand
-	declSeen  map[string]bool
-	curAlloc0 string
-	maxTrace  int
-	orParts   map[string][]string // merged path condition -> its alternatives
-	andParent map[string]string   // refined path condition -> the one it refines
-	noAssume  bool                // true while exit obligations are emitted
-	noFacts   int                 // >0: terms mention bound variables, no typing facts may be emitted
-	axiomHeap map[string]string   // non-nil while an axiom is evaluated: heap key -> array sort (arrays are bound variables)
+	P           *Prog
+	F           *FuncInfo
+	trace       []string
+	nfresh      int
+	obls        []*Obligation
+	occ         map[string]int
+	factSeen    map[string]bool
+	lits        map[string]string // string literal -> const name
+	litOrder    []string
+	heapKeys    map[string]string // heap key -> sort of the array
+	entry       *State
+	results     []*types.Var
+	resVals     []types.Object
+	returns     []*State
+	quiet       int // >0: spec evaluation, no safety obligations
+	loopOrd     int
+	notes       []string // assumptions / uncontracted callees etc.
+	unbound     string   // non-empty: function could not be lowered
+	info        *types.Info
+	extraDecl   []string // uninterpreted functions declared on demand
+	declSeen    map[string]bool
+	curAlloc0   string
+	maxTrace    int
+	orParts     map[string][]string // merged path condition -> its alternatives
+	andParent   map[string]string   // refined path condition -> the one it refines
+	noAssume    bool                // true while exit obligations are emitted
+	noFacts     int                 // >0: terms mention bound variables, no typing facts may be emitted
+	axiomHeap   map[string]string   // non-nil while an axiom is evaluated: heap key -> array sort (arrays are bound variables)
+	inlineOrd   int
+	inlineStack []*FuncInfo // contract-less callees being executed in place
 }
 
 type unboundErr struct{ msg string }
